@@ -7,9 +7,25 @@ def sig(t, ev):
     return "c18:%s" % ev.get("ev")
 
 
+def _pre(ctx):
+    from fstor import fstor_ro_part
+    fstor_ro_part(ctx)       # read-only opens of the REAL file storage (every other part runs on the recording storage)
+
+
 def main(ctx):
-    return kv_main(ctx, "c18", sig_fn=sig, need_comp=("mem",))
+    return kv_main(ctx, "c18", sig_fn=sig, need_comp=("mem",), pre=_pre)
 
 
 def replay(ctx, path):
+    import glob
+    import json
+    import os
+    imgs = glob.glob(os.path.join(path, "fs-image*.ndjson")) if os.path.isdir(path) else []
+    if imgs:
+        from fstor import replay_image
+        bad = replay_image(ctx, imgs[0], json.load(open(os.path.join(path, "meta.json"))))
+        if bad:
+            print("VIOLATION property=%s replay=%s" % (ctx.pid, path))
+        ctx.cleanup()
+        return 1 if bad else 0
     return kv_replay(ctx, path)
